@@ -35,7 +35,8 @@ RULE = ("pipelines of harness/pipegen.py (1..5 structural functions; every outpu
         "valid map requests of harness/mapgen.py (1..3 functions, axis sizes 1..3, all three storages) x EVERY "
         "invocation of the run (function, call index) as the failing one x exception kinds {ValueError('m'), "
         "KeyError('k'), CustomError('p','q') (importable, picklable), RuntimeError()} x entry points pipeline(...), "
-        "run(full_output=..), func(o)(...), map(parallel=False), map(executor=ThreadPoolExecutor); thorough adds "
+        "run(full_output=..), func(o)(...), map(parallel=False), map(executor=ThreadPoolExecutor), both also with "
+        "output_names=<all outputs> (map then executes a subpipeline copy); thorough adds "
         "map(executor=ProcessPoolExecutor), map(parallel=True) with pipefunc's own pool, map_async with thread and "
         "process pools, and every kind for every invocation (quick rotates the kinds); + a few runs without failure; "
         "non-trivial = >= 2 invocations in the run; distinct by (pipeline/request, failing invocation, kind, entry)")
@@ -67,8 +68,14 @@ TIMEOUT_S = 40.0
 # sandbox needs ~3 ms per unlink), always removed
 TMP_BASE = "/dev/shm" if os.path.isdir("/dev/shm") and os.access("/dev/shm", os.W_OK) else None
 SEQ_MODES = ("seq",)
-INPROC = {"seq": True, "thread": True, "athread": True, "proc": False, "procdefault": False, "aproc": False}
-ENTRY_NO = {"seq": 0, "thread": 1, "proc": 2, "procdefault": 3, "athread": 4, "aproc": 5}
+# "...sub": the same call with output_names=<all outputs>, which makes map execute a subpipeline COPY
+INPROC = {"seq": True, "thread": True, "athread": True, "proc": False, "procdefault": False, "aproc": False,
+          "seqsub": True, "threadsub": True}
+ENTRY_NO = {"seq": 0, "thread": 1, "proc": 2, "procdefault": 3, "athread": 4, "aproc": 5, "seqsub": 6, "threadsub": 7}
+
+
+def _base(mode):
+    return mode[:-3] if mode.endswith("sub") else mode
 DUMP_SUB = {"file_array": True, "dict": False, "shared_memory_dict": True}
 
 
@@ -87,7 +94,7 @@ def emit_case(c) -> str:
     gens = clist([clist([mapgen.func_lit(by_name[n]) for n in g]) for g in c["gens"]])
     mode = c["mode"]
     return (f"(CMap {gens} {mapgen._env(req['inputs'])} {mapgen.shapes_lit(req.get('internal'))} "
-            f"{cbool(DUMP_SUB[req['storage']])} {cbool(mode != 'seq')} {cbool(INPROC[mode])} "
+            f"{cbool(DUMP_SUB[req['storage']])} {cbool(_base(mode) != 'seq')} {cbool(INPROC[mode])} "
             f"{cnat(ENTRY_NO[mode])} {cstr(c['tgt'])} {_exn_lit(c['exc'])})")
 
 
@@ -186,6 +193,9 @@ def _map_call(pl, c, folder):
     req, mode = c["req"], c["mode"]
     inputs = mapsym.map_inputs(req)
     kw = {"run_folder": folder, "internal_shapes": mapsym.internal_arg(req), "storage": req["storage"]}
+    if mode.endswith("sub"):
+        kw["output_names"] = {o for f in req["funcs"] for o in f["outs"]}
+        mode = _base(mode)
     if mode == "seq":
         pl.map(inputs, parallel=False, **kw)
     elif mode == "thread":
@@ -232,7 +242,7 @@ def _stored_obs(names, folder):
 def _effectively_sequential(c):
     """prepare_run/_cannot_be_parallelized: parallel=True without an executor runs sequentially in this process when
     no function has a MapSpec and every generation is a single function (mirrored by Run_C13.eff_flags)."""
-    if c["mode"] == "seq":
+    if _base(c["mode"]) == "seq":
         return True
     return (c["mode"] == "procdefault" and all(f.get("spec") is None for f in c["req"]["funcs"])
             and all(len(g) == 1 for g in c["gens"]))
@@ -325,7 +335,21 @@ def _probe_request(req):
         gens = [[f.__name__ for f in g] for g in pl.topological_generations.function_lists]
         pl.map(mapsym.map_inputs(req), run_folder=None, internal_shapes=mapsym.internal_arg(req),
                storage="dict", parallel=False)
-    return gens, log.read()
+    calls = log.read()
+    # output_names=<all outputs> executes Pipeline.subpipeline(inputs, outputs), which silently drops functions that
+    # are not downstream of a supplied input (nullary functions, ...; another property's business): the "...sub"
+    # entry points are only explored when the subpipeline run invokes the same functions
+    sub_ok = False
+    try:
+        log2 = ListLog()
+        with contextlib.redirect_stdout(sink):
+            pl2 = failsym.build_map(req, log2)
+            pl2.map(mapsym.map_inputs(req), run_folder=None, internal_shapes=mapsym.internal_arg(req),
+                    storage="dict", parallel=False, output_names={o for f in req["funcs"] for o in f["outs"]})
+        sub_ok = log2.read() == calls
+    except Exception:  # noqa: BLE001
+        sub_ok = False
+    return gens, calls, sub_ok
 
 
 def _gen_map(rng, tier, n_req, modes, max_calls, shared_share):
@@ -338,7 +362,7 @@ def _gen_map(rng, tier, n_req, modes, max_calls, shared_share):
         if mapgen.request_size(req) > 14:
             continue
         try:
-            gens, calls = _probe_request(req)
+            gens, calls, sub_ok = _probe_request(req)
         except Exception:  # noqa: BLE001
             continue
         if not (1 <= len(calls) <= max_calls):
@@ -349,14 +373,17 @@ def _gen_map(rng, tier, n_req, modes, max_calls, shared_share):
             if tgt in seen:
                 continue
             seen.add(tgt)
-            for mode in modes:
+            for mode0 in modes:
+                mode = rng.choice(mode0.split("|"))      # "a|b": one of the two per invocation (quick tier)
+                if mode.endswith("sub") and not sub_ok:
+                    continue
                 for kind in _kinds_for(tier, i + len(cases)):
                     r2 = json.loads(json.dumps(req))
                     # shared_memory_dict starts one manager process per array (~0.5 s each here): small share
                     r = rng.random()
                     r2["storage"] = ("shared_memory_dict" if r < shared_share
                                      else ("dict" if r < 0.5 + shared_share / 2 else "file_array"))
-                    if r2["storage"] == "shared_memory_dict" and mode not in ("seq", "procdefault"):
+                    if r2["storage"] == "shared_memory_dict" and mode not in ("seq", "seqsub", "procdefault"):
                         # a caller-owned executor may still be running tasks of the failing generation when map
                         # raises and persists the shared dict: what is on disk then depends on timing
                         r2["storage"] = "file_array"
@@ -364,7 +391,9 @@ def _gen_map(rng, tier, n_req, modes, max_calls, shared_share):
                                   "ffn": tgt.split("(", 1)[0], "exc": kind, "ncalls": len(calls), "idx": i})
         if rng.random() < 0.3:
             req["storage"] = rng.choice(["dict", "file_array"])
-            cases.append({"kind": "map", "req": req, "gens": gens, "mode": rng.choice(modes), "tgt": "nothing()",
+            m0 = rng.choice(modes).split("|")[0]
+            cases.append({"kind": "map", "req": req, "gens": gens, "mode": m0 if sub_ok else _base(m0),
+                          "tgt": "nothing()",
                           "ffn": "nothing", "exc": "V", "ncalls": len(calls), "idx": -1})
     return cases
 
@@ -372,11 +401,12 @@ def _gen_map(rng, tier, n_req, modes, max_calls, shared_share):
 def generate(rng, tier, mult):
     if tier == "quick":
         cases = _gen_pipe(rng, tier, 120 * mult)
-        cases += _gen_map(rng, tier, 110 * mult, ["seq", "thread"], max_calls=14, shared_share=0.04)
+        cases += _gen_map(rng, tier, 100 * mult, ["seq", "thread", "seqsub|threadsub"], max_calls=14,
+                          shared_share=0.04)
     else:
         cases = _gen_pipe(rng, tier, 300 * mult)
-        cases += _gen_map(rng, tier, 55 * mult, ["seq", "thread", "proc", "procdefault", "athread", "aproc"],
-                          max_calls=14, shared_share=0.03)
+        cases += _gen_map(rng, tier, 50 * mult, ["seq", "thread", "proc", "procdefault", "athread", "aproc",
+                                                  "seqsub", "threadsub"], max_calls=14, shared_share=0.03)
     return cases
 
 
@@ -415,7 +445,7 @@ def finding_id(c, impl_obs, kind):
     that generation is never written, (b) with storage='dict' (no dump_in_subprocess) the elements computed in that
     generation are never dumped.  The id is returned only when the rest of the observation is as the property
     demands (raised unchanged, note, failing call last, snapshot) and the store shows exactly that loss."""
-    if c["kind"] != "map" or c["mode"] != "seq" or c["idx"] < 0:
+    if c["kind"] != "map" or _base(c["mode"]) != "seq" or c["idx"] < 0:
         return None
     try:
         res, note, lines, snap, store = impl_obs
